@@ -34,6 +34,9 @@ def planted():
             for val in (["s", None], ["s", 2.5], ["s", 7], ["l", [None, 2.5]], ["l", [1.5]], ["l", [None]]):
                 ps.append([["newvec", [], "a", t], ["newvec", [], "b", t], ["setv", 0, key, val], ["read", 0], ["setv", 1, key, val],
                            ["drop", 1], ["setv", 0, key, val]])
+                # three vectors over one tuple: a refused write leaves its target as it was however many partners there are
+                ps.append([["newvec", [], "a", t], ["newvec", [], "b", t], ["newvec", [], "c", t], ["setv", 0, key, val], ["read", 0],
+                           ["setv", 2, key, val], ["read", 2], ["drop", 1], ["setv", 0, key, val], ["drop", 1], ["setv", 0, key, val]])
     tab = ["newtab_dict", [["a", [1, 2, 3]], ["b", [4, 5, 6]]]]
     for ci in (0, 1):
         ps.append([["newvec", [7, 8, 9], "v", None], tab, ["setattr", 1, ci, ["slot", 0], True], ["setv", 0, ["int", 0], ["s", 99]],
@@ -54,6 +57,10 @@ def planted():
             ps.append([["newtab_dict", [["a", [1, 2, 3]], ["b", [5, 6, 7]]]], ["newtab_dict", [["a", [1, 2, 3]], ["c", [7, 8, 9]]]],
                        ["join", 0, 1, how, want], ["sett", 2, ["cell", 0, 1, 500]], ["read", 0], ["sett", 0, ["cell", 1, 1, -4]],
                        ["read", 2], ["sett", 1, ["cell", 2, 1, 44]], ["read", 2]])
+    # a block of one table pasted into another (t[0:k, :] = other): the source keeps its kinds and values whatever the target's are
+    for src_vals, dst_vals in (([1, 2], [1.5, 2.5, 3.5]), ([1, 2], [5, 6, 7]), ([2.0, 4.0], [5, 6, 7]), ([None, 1], [2.0, 4.0, 2.0])):
+        ps.append([["newtab_dict", [["a", dst_vals], ["b", [7, 8, 9]]]], ["newtab_dict", [["p", src_vals], ["q", [0, 1]]]],
+                   ["sett", 0, ["fromtab", 1]], ["read", 1], ["read", 0], ["sett", 1, ["cell", 0, 0, 3]], ["read", 0]])
     return [{"prog": p} for p in ps]
 
 
